@@ -12,7 +12,12 @@
                                          isWasmAccount, validateSmartContractSigners,
                                          ValidateSignersWithoutParties, validateAllRequiredSigned,
                                          validateRolesPresent, validatePartiesArePresent
-      x/metadata/keeper/scope.go         ValidateWriteScope, ValidateDeleteScope, ValidateUpdateScopeOwners,
+      x/metadata/types/scope.go          Scope.Equals (field by field: specification id, owners via
+                                         EqualParties = address, role AND optional flag, data access via
+                                         equivalentDataAssessors, value owner, rollup flag)
+      x/metadata/keeper/scope.go         ValidateWriteScope (incl. the value-owner lookup and the
+                                         "only the value owner changes" shortcut: [OWriteScopeFull]),
+                                         ValidateDeleteScope, ValidateUpdateScopeOwners,
                                          ValidateAddScopeDataAccess, ValidateDeleteScopeDataAccess (signature
                                          part), ValidateUpdateValueOwners
       x/metadata/keeper/signers.go       ValidateScopeValueOwnersSigners (non-marker value owners)
@@ -35,6 +40,10 @@
       - for the scope / session / record endpoints the scope has no value owner and none is
         proposed (ValidateScopeValueOwnersSigners then requires nothing and contributes no used
         signers): value-owner rules belong to C09;
+      - [OWriteScopeFull] is MsgWriteScope on an existing scope WITH the value-owner fields: the
+        current value owner (bank) is an ordinary (non-marker) account or absent, the proposed one
+        is not a marker, the proposed specification exists, and the bank transfer / mint of the
+        scope coin after an accepted signer check succeeds;
       - for MsgUpdateValueOwners ([OUpdateValueOwners]) only the signer part is modelled: the
         existing value owners are ordinary (non-marker) accounts, the scope ids in the message are
         distinct, and the bank transfer of the scope coins that follows an accepted signer check
@@ -317,6 +326,33 @@ Definition equal_party (p q : party) : bool := same_party p q && Bool.eqb (p_opt
 Definition equal_parties (p1 p2 : list party) : bool :=
   Nat.eqb (length p1) (length p2) && forallb (fun p => existsb (equal_party p) p2) p1.
 
+(** The fields Scope.Equals looks at ([sv_vo] of a stored scope = the holder of its scope coin). *)
+Record scope_view := {
+  sv_spec : Z;                (* specification id, interned *)
+  sv_owners : list party;
+  sv_data : list Z;           (* data access addresses *)
+  sv_vo : option Z;           (* value owner; None = empty *)
+  sv_rollup : bool
+}.
+Definition with_vo (s : scope_view) (v : option Z) : scope_view :=
+  {| sv_spec := sv_spec s; sv_owners := sv_owners s; sv_data := sv_data s; sv_vo := v;
+     sv_rollup := sv_rollup s |}.
+Definition opt_z_eqb (a b : option Z) : bool :=
+  match a, b with
+  | Some x, Some y => Z.eqb x y
+  | None, None => true
+  | _, _ => false
+  end.
+(** equivalentDataAssessors *)
+Definition equiv_data (s1 s2 : list Z) : bool :=
+  forallb (fun a => mem a s2) s1 && forallb (fun a => mem a s1) s2.
+
+(** Scope.Equals (the scope id is the same by construction) *)
+Definition scope_equals (s t : scope_view) : bool :=
+  Z.eqb (sv_spec s) (sv_spec t) && equal_parties (sv_owners s) (sv_owners t) &&
+  equiv_data (sv_data s) (sv_data t) && opt_z_eqb (sv_vo s) (sv_vo t) &&
+  Bool.eqb (sv_rollup s) (sv_rollup t).
+
 Definition prov_role_ok (e : env) (ps : list party) : bool :=
   validate_provenance_role e (build_party_details [] ps).
 
@@ -384,7 +420,12 @@ Inductive outer :=
 | ODataAccess (rollup : bool) (owners : list party) (spec_roles : option (list Z))
   (* MsgUpdateValueOwnersRequest: [vos] = the current value owner of each listed scope ([None]:
      the scope has none / does not exist), [proposed] = the new value owner *)
-| OUpdateValueOwners (vos : list (option Z)) (proposed : Z).
+| OUpdateValueOwners (vos : list (option Z)) (proposed : Z)
+  (* MsgWriteScopeRequest on an existing scope, all fields: [existing] as stored, with [sv_vo] =
+     the current holder of the scope coin; [proposed] = the scope in the message ([sv_vo] = None:
+     the value owner field is empty = leave it alone); [spec_roles] = PartiesInvolved of the
+     PROPOSED specification *)
+| OWriteScopeFull (existing proposed : scope_view) (spec_roles : list Z).
 
 Definition opt_parties (o : option (list party)) : list party :=
   match o with Some l => l | None => [] end.
@@ -469,6 +510,44 @@ Definition outer_accept (e : env) (op : outer) (signers : list Z) : bool :=
       | Some _ => true
       | None => false
       end
+  | OWriteScopeFull ex pr roles =>
+      (* proposed.ValidateBasic *)
+      parties_basic (sv_owners pr) && optional_parties_ok (sv_rollup pr) (sv_owners pr) &&
+      (* the existing value owner is looked up only when one is proposed *)
+      (let ex_vo := match sv_vo pr with Some _ => sv_vo ex | None => None end in
+       let ex' := with_vo ex ex_vo in
+       (* onlyChangeIsValueOwner *)
+       let only_vo :=
+         match ex_vo with
+         | Some _ => negb (opt_z_eqb ex_vo (sv_vo pr)) && scope_equals ex' (with_vo pr ex_vo)
+         | None => false
+         end in
+       (* used signers of the party checks; None = error *)
+       let validated : option (list Z) :=
+         if only_vo then Some []
+         else if validate_roles_present (sv_owners pr) roles && prov_role_ok e (sv_owners pr) then
+           if negb (sv_rollup ex) then
+             if negb (scope_equals ex' pr)
+             then option_map used_signers
+                    (validate_all_required_signed e (party_addrs (sv_owners ex)) signers)
+             else Some []
+           else option_map used_signers
+                  (validate_all_required_parties_signed e (sv_owners ex) (sv_owners ex) roles signers)
+         else None in
+       match validated with
+       | None => false
+       | Some used1 =>
+           (* ValidateScopeValueOwnersSigners(existingVOAddrs, proposed.ValueOwnerAddress) *)
+           match sv_vo pr with
+           | None => validate_smart_contract_signers e used1 signers
+           | Some p =>
+               match validate_value_owners_signers e
+                       (match ex_vo with Some v => [v] | None => [] end) p signers with
+               | None => false
+               | Some used2 => validate_smart_contract_signers e (used2 ++ used1) signers
+               end
+           end
+       end)
   end.
 
 (** ** getAuthzMessageTypeURLs, on message kinds:
